@@ -350,6 +350,11 @@ Proof.
   intros H. unfold vimpl_eval_checked. destruct uniform; [|reflexivity]. f_equal. apply vec_refines. now apply H.
 Qed.
 
+(* with per-unit delay lookups the vector statement holds without any guard *)
+Theorem vec_perunit_full hist start par dpar n m md t y :
+  vimpl_eval_perunit hist start par dpar n m md t y = vspec_eval hist start par dpar n m md t y.
+Proof. unfold vimpl_eval_perunit, vspec_eval. apply map_ext. intros u. apply dde_full. Qed.
+
 (* ---------- the Euler loop with DDEHistory is the method-of-steps recurrence ---------- *)
 Lemma spec_eval_ext h1 h2 pos par dpar m md t y : (forall s, h1 s = h2 s) ->
   spec_eval h1 pos par dpar m md t y = spec_eval h2 pos par dpar m md t y.
